@@ -311,6 +311,7 @@ func c13Timeout(id string, class int, payloadKind int, seed int64) core.Scenario
 					} else {
 						c.Inconclusive("late Reply still in progress after 10 s in " + id)
 					}
+					return // (the actor is stuck in Reply: a liveness probe would only wait for the watchdog)
 				}
 			case <-time.After(30 * time.Second):
 				c.Inconclusive("the actor never reported the outcome of its late Reply in " + id)
@@ -414,6 +415,7 @@ func c13BusyActor(id string, capacity int, seed int64) core.Scenario {
 				} else {
 					c.Inconclusive("reply to a stale request still in progress after 10 s in " + id)
 				}
+				return
 			}
 		case <-time.After(30 * time.Second):
 			c.Inconclusive("no reply outcome in " + id)
